@@ -110,8 +110,8 @@ CHECKS.update({
  'C05': dict(
    text=('Theorems about the literal models of the two producer goroutines. Lexer (lex.go): for EVERY input and every classification of runes the state machine ends within 2*|input|+4 state functions and sends ordinary tokens followed '
          'by exactly one terminal token (EOF or error), so Tokens() receives every send and nothing stays blocked (measure argument over the state machine, induction on the inner loops). FOR expander (forexpand.go): for EVERY token stream '
-         'and symbol table, when a pass ends the goroutine has sent at most one terminal token, as the last send, is not left blocked, and Tokens() returns a stream with exactly one terminal token (invariant over the 12 state functions). '
-         'PARTIAL: that the expander pass, the symbol scanner, the parser and the EQU graph / substitution loops never exhaust their linear fuel is not proved (C05_full_statement); the error-xor-result shape of CompileWarrior\'s two return values, '
+         'and symbol table, when a pass ends the goroutine has sent at most one terminal token, as the last send, is not left blocked, and Tokens() returns a stream with exactly one terminal token (invariant over the 12 state functions); on every closed stream a pass ends within its 4*|tokens|+8 state functions provided FOR-count evaluation does not exhaust its own fuel (measure argument). '
+         'PARTIAL: that the symbol scanner, the parser and the EQU substitution loops never exhaust their linear fuel is not proved (C05_full_statement); the error-xor-result shape of CompileWarrior\'s two return values, '
          'wall-clock, memory and the goroutine count are runtime facts outside the model. Every run feeds generated inputs (valid, mutated, token soup, invalid UTF-8, NUL, ^Z, CR/LF variants, unterminated lines, EQU cycles with ;assert, half-failing FOR blocks) '
          'to gmars in worker processes under a watchdog, compares result and token streams with the extracted model, and checks err xor result and the goroutine count before/after.'),
    design_ref='DESIGN.md 5 C05', note=NOTE_STD + ' Fuel adequacy beyond the lexer, and all runtime behaviour (time, memory, goroutine profile), are covered by the per-run harness only.',
@@ -123,7 +123,7 @@ CHECKS.update({
    text=('PARTIAL by nature: data races, goroutine scheduling and the absence of package-level mutable state are runtime / source facts that no executable model expresses; they are checked on every run by the harness built with -race '
          '(the same jobs - assemble text; build simulator, add shared warrior data, spawn, run - on 1..32 threads, every result compared with its sequential result and with the extracted model, GORACE=halt_on_error). '
          'What is proved: (1) copy isolation in a store model of Go slices (backing arrays by address; WarriorData.Copy allocates; addWarrior keeps only the copy): after AddWarrior no write through the caller\'s slice shows in what the simulator loads, and vice versa, '
-         'and earlier warriors are untouched; (2) the EQU cycle check gives the same answer for every order in which Go ranges over the map of names (permutation invariance, given fuel adequacy and distinct names); (3) jobs whose steps write only their own state '
+         'and earlier warriors are untouched; (2) the EQU cycle check always answers (its depth-first walk never exhausts its fuel) and gives the same answer for every order in which Go ranges over the map of names (permutation invariance, distinct names); (3) jobs whose steps write only their own state '
          'end, under every interleaving, where they end when run alone (instantiated to simulators stepping RunCycle); the literal models are functions, so repeating a job repeats its result. The store model is exercised by the harness case that mutates '
          'the caller\'s WarriorData after AddWarrior and compares the battle with the model\'s.'),
    design_ref='DESIGN.md 5 C14', note=NOTE_STD + ' The concurrency part of the property is decided by the race-detector harness, not by a theorem.',
@@ -132,17 +132,17 @@ CHECKS.update({
 
 CHECKS.update({
  'C03': dict(
-   text=('PARTIAL. Proved, at the compile stage of the literal model (model/Compile.v, from parsed source lines to instructions): the default-modifier tables of load.go equal the independently written reference tables on all opcode/mode combinations '
+   text=('PARTIAL. Proved at the lexer stage: any text written as a sequence of well-placed lexemes and closed by white space is tokenised into exactly the tokens of its lexemes, blank runs contributing one newline token per line feed and nothing else (so spacing does not matter). Proved at the compile stage of the literal model (model/Compile.v, from parsed source lines to instructions): the default-modifier tables of load.go equal the independently written reference tables on all opcode/mode combinations '
          '(\'94) and wherever \'88 accepts; a label used as an operand expands and evaluates to (label line - referring line) mod M for every M up to 2^31; one substitution pass is token-wise and replaces every EQU name by its text wherever it occurs '
          '(so forward uses are covered: the symbol table is complete before any line is assembled); mnemonics, modifiers and pseudo-ops are recognised under every per-character letter-casing; the entry point of an accepted program is the value of its ORG/END expression '
-         'and the parser\'s metadata is returned unchanged. Together with C06 (fields, lengths, \'88 legality for all line lists) and C07 (expression values). NOT proved: the lexer/parser stages (independence from spacing, blank/comment lines, colon suffixes, label spelling, EQU placement) '
+         'and the parser\'s metadata is returned unchanged. Together with C06 (fields, lengths, \'88 legality for all line lists) and C07 (expression values). NOT proved: the symbol-scanner and parser stages (blank/comment lines, colon suffixes, label spelling, EQU placement) '
          'and the end-to-end statement CompileWarrior(render(p)) = meaning(p) (kept as C03_full_statement). That statement is decided on every run by the two-stage correspondence: generated abstract programs rendered under several styles by the extracted renderer, assembled by gmars and by the extracted model, compared with the extracted meaning.'),
    design_ref='DESIGN.md 5 C03', note=NOTE_STD + ' The end-to-end statement is covered by differential testing against the by-construction meaning; only compile-stage facts are theorems.',
    technique='Coq lemmas on the compile stage (finite table sweeps lifted by lemma, token-wise characterisation of the substitution pass, label-offset arithmetic) + per-run two-stage differential correspondence against an independent meaning function'),
  'C08': dict(
-   text=('PARTIAL. Proved on the literal model of the expander state machine (model/ForExpand.v), for every stream, label list and count: the body is sent count times with the counter replaced by 1..count (nothing for count 0), block labels renamed uniformly and all other tokens kept; '
+   text=('PARTIAL. Proved on the literal model of the expander state machine (model/ForExpand.v), for every stream, label list and count: the body is sent count times with the counter replaced by 1..count (nothing for count 0) and all other tokens - block labels included - kept; '
          'from the ROF line on, whatever state was reached, exactly the unrolled body is sent and then the rest of the program is copied unchanged up to EOF; on the FOR line the count is the value of the expression over the pre-scanned EQU symbols, the name before FOR is the counter, '
-         'earlier names are block labels, and their renamed forms are sent exactly once, immediately before the first instruction of the body. NOT proved: collection of the body with nesting depth, copying of the lines before the block, the repeat-until-no-FOR driver and the composition into '
+         'earlier names are block labels, which keep their names and are sent exactly once, immediately before the first instruction of the body. NOT proved: collection of the body with nesting depth, copying of the lines before the block, the repeat-until-no-FOR driver and the composition into '
          'CompileWarrior(p) = CompileWarrior(unroll(p)) (kept as C08_full_statement). That statement is decided on every run by the correspondence: generated programs (blocks in sequence, nesting to 3, counts 0..6 from literals and EQUs, counters in inner/outer expressions, block labels) and their extracted unrollings '
          'assembled by gmars and by the extracted model, compared with each other and with the extracted meaning.'),
    design_ref='DESIGN.md 5 C08', note=NOTE_STD + ' The end-to-end unrolling equality is covered by differential testing; only the unrolling arithmetic and the ROF / FOR-line phases of the state machine are theorems.',
